@@ -15,7 +15,7 @@ KIND_SEQ = ["i8", "u8", "i16", "u16", "i32", "u32", "i64", "u64", "long", "ulong
             "bool", "enum", "cstr", "string", "objPtr", "objRef", "objVal", "constObjRef", "void",
             "enumC", "enumLL", "strPtr", "arrI32", "arrF32", "arrObj"]
 FK_SEQ = ["free", "method", "cmethod", "static", "ctor", "getter", "setter",
-          "opIndex", "opCall", "opAsg", "opCast", "opEq", "opIndexRef"]
+          "opIndex", "opCall", "opAsg", "opCast", "opEq", "opIndexRef", "opInc", "opDec", "opBin"]
 CLS_SEQ = ["-", "K0", "K1", "K2", "KB", "Mix", "K3"]
 CLASSES = CLS_SEQ[1:]
 BASES = {"K0": [], "K1": ["K0"], "K2": ["K0"], "KB": [], "Mix": ["K0", "KB"], "K3": ["K0"]}
@@ -50,7 +50,7 @@ def has_this(s):
 
 
 def const_this(s):
-    return s["fk"] in ("cmethod", "getter", "opIndex", "opCast", "opEq")
+    return s["fk"] in ("cmethod", "getter", "opIndex", "opCast", "opEq", "opBin")
 
 
 def has_k0(c):
@@ -101,7 +101,7 @@ def cpp_name_group(s):
         return (s["cls"], "index")
     if fk == "opAsg":
         return (s["cls"], "opAsg", ASG_TOKEN[s["ret"]])
-    if fk in ("ctor", "opCall", "opEq"):
+    if fk in ("ctor", "opCall", "opEq", "opInc", "opDec", "opBin"):
         return (s["cls"], fk)
     if fk == "opCast":
         return (s["cls"], "opCast", s["ret"])
@@ -255,7 +255,15 @@ def ret_string_ref(fn):
 
 
 def is_virtual(fn):
-    return fn.sig["fk"] in ("method", "cmethod") and fn.sid % 4 == 1
+    return fn.sig["fk"] in ("method", "cmethod") and (fn.sid // 4) % 3 == 0
+
+
+OVERRIDERS = ("K1", "Mix", "K3")
+
+
+def is_overridden(fn):
+    """CppLibCalls!Virt: a virtual member function of K0 is overridden in K1, Mix and K3 (not in K2)"""
+    return is_virtual(fn) and fn.sig["cls"] == "K0"
 
 
 def pname(fn, i):
@@ -270,6 +278,8 @@ def params_text(fn, with_defaults):
     out = []
     for i, k in enumerate(s["ps"][:decl_np(s)]):
         t = ptype(k, i + 1, fn.fam, fn.sid)
+        if s["fk"] in ("opInc", "opDec"):
+            t = "int"                   # the dummy parameter of the postfix form
         d = ""
         if with_defaults and i >= n - s["nd"]:
             d = " = " + cpp_literal(k, val(k, defval(k, i + 1)))
@@ -284,9 +294,11 @@ def decl_name(fn):
     return fn.cname
 
 
-def declaration(fn):
+def declaration(fn, override=False):
     s = fn.sig
     fk = s["fk"]
+    if override:
+        return "%s %s(%s)%s override;" % (rtype(fn), fn.cname, params_text(fn, True), " const" if const_this(s) else "")
     if fk == "ctor":
         return "%s(%s);" % (fn.cxxcls, params_text(fn, True))
     if fk == "opCast":
@@ -311,13 +323,15 @@ def this_state_expr(cls):
     return {"KB": "bst", "Mix": "(%s + 7 * bst) %% 32768" % K0PART}.get(cls, K0PART)
 
 
-def body(fn):
+def body(fn, override=None):
+    """statements of the function body; override = the class whose override of a virtual K0 function this is"""
     s = fn.sig
     fk = s["fk"]
     k0 = "K0_%d" % fn.fam
     L = []
     ts = this_state_expr(s["cls"]) if has_this(s) else "0"
-    L.append("vfrt::Call c(%d, %dL, %s);" % (fn.gid, fn.sid, ts))
+    oc = CLS_SEQ.index(override) + 1 if override else 0      # CppLibCalls!ClsIdx is 1-based
+    L.append("vfrt::Call c(%d, %dL, %s);" % (fn.gid + 1000000 * oc, fn.sid, ts))
     for i, k in enumerate(s["ps"][:decl_np(s)]):
         a = pname(fn, i)
         if k == "objPtr":
@@ -326,7 +340,9 @@ def body(fn):
             L.append("c.obj(false, %s.st, %s.vf_tag());" % (a, a))
         else:
             L.append(ARG_STMT[k] % a)
-    L.append("long m = c.mix(); (void)m;")
+    L.append("long m = c.mix() + %dL; (void)m;" % (1000003 * oc))
+    if fk in ("opInc", "opDec") and s["ret"] == "objVal":
+        L.append("%s old(*this);" % k0)          # postfix: the result holds the value before the call
     if fk == "ctor":
         if has_k0(s["cls"]):
             L.append("st = (int)(m % 32768); vf_settag((m / 7) % 1000);")
@@ -341,7 +357,7 @@ def body(fn):
                 L.append("bst = (bst + 1) % 32768;")
     # candidates are collected before the arguments are touched (addresses only)
     r = s["ret"]
-    if fk != "opAsg" and r in ("objPtr", "objRef", "constObjRef"):
+    if fk not in ("opAsg", "opInc", "opDec") and r in ("objPtr", "objRef", "constObjRef"):
         L.append("%s *cands[4]; int nc = 0;" % k0)
         if this_is_cand(s):
             L.append("cands[nc++] = (%s *)this;" % k0)
@@ -365,8 +381,10 @@ def body(fn):
         L.append("return %s::vf_items[c.lasth %% 4];" % root)
     elif fk == "ctor" or r == "void":
         pass
-    elif fk == "opAsg" and r == "objRef":
+    elif fk in ("opAsg", "opInc", "opDec") and r == "objRef":
         L.append("return *this;")
+    elif fk in ("opInc", "opDec"):
+        L.append("return old;")
     elif r == "enumC":
         L.append("return (EnC)vfrt::enc_enumc(m);")
     elif r == "enumLL":
@@ -409,7 +427,12 @@ def definition(fn):
         head = "%soperator %s()%s" % (scope, rtype(fn), post)
     else:
         head = "%s %s%s(%s)%s" % (rtype(fn), scope, fn.cname, params_text(fn, False), post)
-    return "%s {\n  %s\n}\n" % (head, "\n  ".join(body(fn)))
+    out = "%s {\n  %s\n}\n" % (head, "\n  ".join(body(fn)))
+    if is_overridden(fn):
+        for c in OVERRIDERS:
+            head = "%s %s_%d::%s(%s)%s" % (rtype(fn), c, fn.fam, fn.cname, params_text(fn, False), post)
+            out += "%s {\n  %s\n}\n" % (head, "\n  ".join(body(fn, c)))
+    return out
 
 
 DATA_INIT = {"bool": "true", "enum": "e1", "string": "\"a b\"", "objPtr": "nullptr", "f32": "1.5f", "f64": "1.5",
@@ -459,6 +482,10 @@ class Batch:
                 for fn in byc[c]:
                     if fn.sig["fk"] not in ("getter", "setter"):
                         L.append("  " + declaration(fn))
+                if c in OVERRIDERS:
+                    for fn in byc["K0"]:
+                        if is_overridden(fn):
+                            L.append("  " + declaration(fn, True))
                 if c == "K0":
                     L.append("  int vf_tag() const;")       # Read: the number the payload spells (-1: no payload text)
                     L.append("  int st;")
@@ -670,6 +697,8 @@ def native_callsite(fn, k):
             call = "(*self)[%s] = %s" % (a[0], a[1])
         elif fk == "opEq":
             call = "((*self) == %s)" % args
+        elif fk in ("opInc", "opDec", "opBin"):
+            call = "self->operator %s(%s)" % ({"opInc": "++", "opDec": "--", "opBin": "+"}[fk], args)
         elif fk == "opCast":
             call = "((%s)(*self))" % rtype(fn)
         else:
@@ -678,7 +707,7 @@ def native_callsite(fn, k):
         self_ = ""
         call = "%s(%s)" % (("::" + fn.cname) if fn.cls == "-" else fn.scoped, args)
     r = s["ret"]
-    if fk == "opAsg" and r == "objRef":
+    if fk in ("opAsg", "opInc", "opDec") and r == "objRef":
         tail = "x.ret_i(find_%d(x, (K0_%d *)&%s));" % (f, f, call)
     elif r == "void":
         tail = "%s; x.ret_void();" % call
@@ -747,10 +776,14 @@ class Packer:
                 cname = "operator " + ASG_TOKEN[s["ret"]]
             elif fk == "opEq":
                 cname = "operator =="
+            elif fk in ("opInc", "opDec", "opBin"):
+                cname = {"opInc": "operator ++", "opDec": "operator --", "opBin": "operator +"}[fk]
             elif fk == "opCast":
                 cname = "operator " + s["ret"]
             elif s["name"]:
-                cname = "ov%d_%d" % (s["name"], self.libno)
+                # (the class is part of the name: an override of a virtual K0 function injected into K1 / Mix / K3 must
+                # not meet a function of the same name that the library declares there)
+                cname = "ov%d_%d%s" % (s["name"], self.libno, "" if s["cls"] == "-" else "_" + s["cls"])
             elif s["cls"] == "-":
                 cname = "f%d_%d" % (sig_id(s), fi)       # namespace-scope names are shared by all families
             else:
@@ -796,9 +829,12 @@ def step_sig(rec, st):
 def resolve(rec, bid, fam, fnmap):
     """one dumped behaviour -> executable steps + expected observations (canonical values)"""
     steps = []
-    for st in rec["script"]:
+    slotcls = {}
+    for i, st in enumerate(rec["script"]):
         op = st["op"]
         exp_post = [p if p else None for p in st["post"]]
+        if op in ("new", "copy"):
+            slotcls[st["obj"]] = st["cls"]
         if op in ("new", "call"):
             s = step_sig(rec, st)
             fn = fnmap[sig_key(s)]
@@ -809,6 +845,13 @@ def resolve(rec, bid, fam, fnmap):
                 d.update(cls=st["cls"], exp_ret=None, slot=st["obj"])
             else:
                 d["this"] = st["this"]
+                # an overridden virtual function is reached through the base class's wrapper (with the database's
+                # upcast) or through the wrapper of the object's own class: alternate
+                # (a class with one non-virtual base does not re-export an overridden virtual function - it is
+                # "inherited properly" through the base wrapper, interrogateBuilder.cxx define_method - so K1 has no
+                # wrapper of its own for it; Mix and K3 have)
+                if is_overridden(fn) and slotcls.get(st["this"]) in ("Mix", "K3") and (bid + i) % 2 == 1:
+                    d["via"] = slotcls[st["this"]]
                 r = s["ret"]
                 d["exp_ret"] = st["this"] if s["fk"] == "opAsg" and r == "objRef" else st["ret"] if r in OBJ_KINDS else val(r, st["ret"])
                 if s["fk"] == "setter":
